@@ -34,7 +34,7 @@ def replay(verdict, tier, seed, owner):
         cases = cases[:: max(1, len(cases) // 6000)]
     from aspire.samplers.mcmc import MCMCSampler
     from aspire.samplers.smc.minipcn import MiniPCNSMC
-    nss = ["numpy", ["torch", "jax"][seed % 2]] if tier == "quick" else ["numpy", "torch", "jax"]
+    nss = ["numpy", "torch", "jax"]
     n_eval = 0
     for ci, c in enumerate(cases):
         ns = nss[ci % len(nss)]
